@@ -7,6 +7,9 @@ from concurrent.futures import ThreadPoolExecutor
 V = os.path.dirname(os.path.dirname(os.path.abspath(__file__)))
 claimed = json.load(open(os.path.join(V, "tools", "claimed.json")))
 lock = open("/tmp/verif-repo.lock", "a+"); fcntl.flock(lock, fcntl.LOCK_EX); os.environ["VERIF_REPO_LOCK_HELD"] = "1"
+os.environ["VERIF_EVIDENCE_DIR"] = "/tmp/verif-seed-evidence"
+os.environ["VERIF_REPLAY_DIR"] = "/tmp/verif-seed-replays"
+os.makedirs("/tmp/verif-seed-evidence", exist_ok=True); os.makedirs("/tmp/verif-seed-replays", exist_ok=True)
 def one(pid):
     c = subprocess.run(["./check", pid, "--tier", "quick"], cwd=V, capture_output=True, text=True, timeout=3600)
     lines = [l for l in c.stdout.splitlines() if l.startswith(("VIOLATION", pid + " tier"))]
